@@ -1579,10 +1579,9 @@ func (k *Kernel) sendPHCheckResponse(ctx context.Context, s *kState, req PHCheck
 			// but it's not impossible that we've received it particularly late.
 			k.setPHCheckStatus(s, req, &resp, s.Committing, ViewIDCommitting)
 		} else {
-			panic(fmt.Errorf(
-				"TODO: handle proposed block with round (%d) beyond committing round (%d)",
-				pbRound, committingRound,
-			))
+			// The committing height was already decided in the committing round,
+			// so a proposal for a later round of that height is out of date.
+			resp.Status = PHCheckRoundTooOld
 		}
 	} else if pbHeight == votingHeight {
 		if pbRound < votingRound {
@@ -1592,10 +1591,8 @@ func (k *Kernel) sendPHCheckResponse(ctx context.Context, s *kState, req PHCheck
 		} else if pbRound == votingRound+1 {
 			k.setPHCheckStatus(s, req, &resp, s.NextRound, ViewIDNextRound)
 		} else {
-			panic(fmt.Errorf(
-				"TODO: handle proposed block with round (%d) beyond voting round (%d)",
-				pbRound, votingRound,
-			))
+			// Beyond the next round; we do not have a view to hold it.
+			resp.Status = PHCheckRoundTooFarInFuture
 		}
 	} else if pbHeight == votingHeight+1 {
 		// Special case of the proposed block being for the next height.
@@ -1691,8 +1688,10 @@ func (k *Kernel) handleStateMachineRoundEntrance(ctx context.Context, s *kState,
 	// And now we need to respond with the matching view.
 	vrv, _, status := s.FindView(re.H, re.R, "(*Kernel).handleStateMachineRoundEntrance")
 	if vrv == nil {
-		// There is one acceptable condition here -- it was before the committing round.
-		if status == ViewBeforeCommitting {
+		// It was before the committing round, or it was a later round of the committing height
+		// (the state machine timed out into a new round of a height that is already decided).
+		// Either way the height is committed and the state machine needs the committed header.
+		if status == ViewBeforeCommitting || status == ViewWrongCommit {
 			// Then we have to load it from the header store.
 			ch, err := k.hStore.LoadCommittedHeader(ctx, re.H)
 			if err != nil {
